@@ -1,7 +1,7 @@
 (* C04 — schema evolution: unknown fields are skipped exactly, absent optionals take defaults. Statements only. *)
 From Coq Require Import List NArith ZArith.
 From TarsV Require Import Base.Hex Codec.Wire Codec.Skip Codec.SkipProofs Codec.Prim Codec.GenCodec Codec.Corr Codec.GenProofs
-  Codec.RoundTrip Codec.RoundTripProofs Codec.NestedProofs Codec.RoundTripExamples Codec.CorrT Gen.Schemas.
+  Codec.RoundTrip Codec.RoundTripProofs Codec.NestedProofs Codec.WireSpec Codec.EvolveProofs Codec.Evolve2Proofs Codec.RoundTripExamples Codec.CorrT Gen.Schemas.
 From TarsV Require Xlate.ReaderEquiv.
 Import ListNotations.
 Open Scope N_scope.
@@ -126,6 +126,52 @@ Theorem C04_extras_nested_into : forall e k sid vs prior Js body tail,
   decode_into e sid prior (body ++ tail) = DOk (norm_struct e sid (VStruct vs)) tail.
 Proof. exact NestedProofs.decode_into_nested. Qed.
 
+(* THE LAST CLAUSE, "so old readers and new writers, and vice versa, interoperate", between two versions of a struct type
+   kept in one schema environment (Codec/EvolveProofs.v).
+   Old writer -> new reader. evolves e fn fo vo vn: the new member list fn is the old one fo with OPTIONAL members added
+   anywhere (of scalar, string, vector, byte-vector or map type, whose default is a value the writer leaves out), and vn
+   is vo with every added member at its default (dflt: the declared default, else the zero value). The bytes the old
+   writer produces for vo decode, with the new schema, everything consumed, to vn (normal form). *)
+Theorem C04_old_writer_new_reader : forall e k n so sn vo vn,
+  wf_schema k e -> (S k <= 64)%nat -> tfin n e (TStruct sn) = true -> (tneed n e (TStruct sn) + k <= 64)%nat ->
+  evolves e (fields_of e sn) (fields_of e so) vo vn -> has_type e (TStruct so) (VStruct vo) ->
+  decode e sn (encode e so (VStruct vo)) = DOk (norm_struct e sn (VStruct vn)) [].
+Proof. exact EvolveProofs.old_writer_new_reader. Qed.
+(* The same direction for added optional members of ANY type (fixed arrays and nested structs included), i.e. "an absent
+   optional field decodes to its IDL default" at struct level for every member type: grows fn fo - fn is fo with optional
+   members added; merged - the decoded members are the writer's values (normal forms) at the old positions and, at every
+   added position, an admissible reset value of the member's type (prior_ok: the declared default, else the Go zero
+   value - for a nested struct its own members reset the same way) *)
+Theorem C04_old_writer_new_reader_any : forall e k, wf_schema k e -> forall n so sn vo,
+  (S k <= 64)%nat -> tfin n e (TStruct sn) = true -> (tneed n e (TStruct sn) + k <= 64)%nat ->
+  grows (fields_of e sn) (fields_of e so) -> has_type e (TStruct so) (VStruct vo) ->
+  exists vs, decode e sn (encode e so (VStruct vo)) = DOk (VStruct vs) [] /\ merged e (fields_of e sn) (fields_of e so) vo vs.
+Proof. exact Evolve2Proofs.old_writer_new_reader_any. Qed.
+Theorem C04_old_writer_new_reader_any_example :
+  grows (fields_of gr_schema 1) (fields_of gr_schema 0) /\
+  decode gr_schema 1 (encode gr_schema 0 (VStruct [VInt 7])) = DOk (VStruct [VInt 7; VList [VInt 0; VInt 0]; VStruct [VInt 0]; VInt 9]) [].
+Proof. exact Evolve2Proofs.gr_example. Qed.
+(* New writer -> old reader. projects e fn fo vn vo Js Jl: fn is fo with members added (of ANY type, optional or
+   required), vo is vn without them, Js / Jl are the added members that are on the wire, as wire fields. The bytes the
+   new writer produces for vn (shorter than 2^30) decode, with the old schema, to vo (normal form), and the cursor stops
+   exactly in front of the added members that follow the old schema's last member. *)
+Theorem C04_new_writer_old_reader : forall e k n so sn vn vo Js Jl,
+  wf_schema k e -> (S k <= 64)%nat ->
+  tfin n e (TStruct so) = true -> (tneed n e (TStruct so) + k <= 64)%nat ->
+  tfin n e (TStruct sn) = true -> (tneed n e (TStruct sn) <= 512)%nat ->
+  projects e (fields_of e sn) (fields_of e so) vn vo Js Jl -> has_type e (TStruct sn) (VStruct vn) ->
+  N.of_nat (length (encode e sn (VStruct vn))) < 1073741824 ->
+  decode e so (encode e sn (VStruct vn)) = DOk (norm_struct e so (VStruct vo)) (ser_fields Jl).
+Proof. exact EvolveProofs.new_writer_old_reader. Qed.
+(* the hypotheses are satisfiable: three versions of a struct type (an optional string with a default added in the
+   middle and an optional map at the end; a required nested struct and a required byte vector added) *)
+Theorem C04_evolution_examples :
+  decode ev_schema 1 (encode ev_schema 0 (VStruct ev_v1))
+    = DOk (VStruct [VInt 7; VStr [110; 111]; VList [VStr [97]; VStr []]; VMap []]) [] /\
+  decode ev_schema 0 (encode ev_schema 2 (VStruct ev_v3))
+    = DOk (VStruct [VInt 7; VList [VStr [98]]]) (ser_fields [(200, WSimple [1; 2])]).
+Proof. exact (conj EvolveProofs.ev_old_to_new EvolveProofs.ev_new_to_old). Qed.
+
 Print Assumptions C04_skip_exact.
 Print Assumptions C04_extras_ignored.
 Print Assumptions C04_extras_ignored_into.
@@ -141,3 +187,8 @@ Print Assumptions C04_reuse.
 Print Assumptions C04_reuse_fresh.
 Print Assumptions C04_reuse_member.
 Print Assumptions C04_reuse_witness.
+Print Assumptions C04_old_writer_new_reader.
+Print Assumptions C04_new_writer_old_reader.
+Print Assumptions C04_evolution_examples.
+Print Assumptions C04_old_writer_new_reader_any.
+Print Assumptions C04_old_writer_new_reader_any_example.
